@@ -273,6 +273,32 @@ example :
         (fun s => (s.kind, s.pts)) = [(.curve, [(0, 0), (2, 2), (2, 2), (0, 0)])] := by
   refine ⟨by decide +kernel, by decide +kernel, by decide +kernel⟩
 
+/-! ## Round 6: path construction operators regenerated from pdfinterp.py -/
+
+/-- `do_m do_l do_c do_v do_y` (operand order extracted from the Python source, every operand guarded by
+`safe_float`): with numeric operands each appends exactly the segment of ISO 32000-1 table 59 with the
+operands in the order given - `x1 y1 x2 y2 x3 y3 c`, `x2 y2 x3 y3 v`, `x1 y1 x3 y3 y`.  Swapping two
+coordinates in pdfinterp.py breaks this proof. -/
+theorem C16_segment_operands (st : IState) (x1 y1 x2 y2 x3 y3 : Rat) :
+    call .m [.num x1, .num y1] st = .ok (pushSeg st (.m (x1, y1))) ∧
+    call .l [.num x1, .num y1] st = .ok (pushSeg st (.l (x1, y1))) ∧
+    call .c [.num x1, .num y1, .num x2, .num y2, .num x3, .num y3] st = .ok (pushSeg st (.c (x1, y1) (x2, y2) (x3, y3))) ∧
+    call .v [.num x2, .num y2, .num x3, .num y3] st = .ok (pushSeg st (.v (x2, y2) (x3, y3))) ∧
+    call .y [.num x1, .num y1, .num x3, .num y3] st = .ok (pushSeg st (.y (x1, y1) (x3, y3))) :=
+  ⟨rfl, rfl, rfl, rfl, rfl⟩
+
+/-- `cm` PRE-multiplies (`self.ctm = mult_matrix(matrix, self.ctm)`, ISO 32000-1 8.3.4: CTM' = M x CTM): a
+point is first mapped by the new matrix, then by the old CTM.  For every pair of matrices and every point. -/
+theorem C16_cm_composes (st : IState) (a b c d e f : Rat) (p : Point) :
+    ∃ st', call .cm [.num a, .num b, .num c, .num d, .num e, .num f] st = .ok st' ∧
+      apply_matrix_pt st'.ctm p = apply_matrix_pt st.ctm (apply_matrix_pt (a, b, c, d, e, f) p) ∧
+      st'.gs = st.gs ∧ st'.curpath = st.curpath ∧ st'.gstack = st.gstack ∧ st'.out = st.out := by
+  refine ⟨_, rfl, ?_, rfl, rfl, rfl, rfl⟩
+  obtain ⟨a0, b0, c0, d0, e0, f0⟩ := st.ctm
+  obtain ⟨x, y⟩ := p
+  simp only [cmPremultiplies, if_true, mult_matrix, apply_matrix_pt, Prod.mk.injEq]
+  constructor <;> grind
+
 /-! ## Frame rules: clipping does not paint; painting touches nothing but the path and the output -/
 
 /-- `W` / `W*` (empty bodies in pdfinterp.py, checked by the translator) are no-ops of the interpreter:
@@ -361,13 +387,16 @@ theorem C16_gstack_untouched (k : OpK) (hq : k ≠ .q) (hQ : k ≠ .Q) (st st' :
         simp only at h
         repeat' split at h
         all_goals (cases h <;> first | (rw [e4]; exact hpop _) | exact hpop _ | rfl)
+      have e8 : ∀ (k : OpK) (args : List Operand) (s : IState), (doSeg k args s).gstack = s.gstack := by
+        intro k args s; unfold doSeg; repeat' split
+        all_goals rfl
       cases k <;> first | exact absurd rfl hq | exact absurd rfl hQ | skip
       all_goals simp only [call] at hc
       all_goals repeat' split at hc
       all_goals first
         | exact e7 _ _ _ hc
         | (cases hc <;> first
-             | rfl | exact e1 _ _ | exact e2 _ | exact e6 _ _ _ _ | exact e5 _ _ _
+             | rfl | exact e1 _ _ | exact e2 _ | exact e6 _ _ _ _ | exact e5 _ _ _ | exact e8 _ _ _
              | (rw [e3]; split <;> first | rfl | exact e2 _))
     by_cases hn : nargs = 0
     · simp only [hn, if_true] at h
